@@ -1,6 +1,7 @@
 package eserial
 
 import (
+	"bytes"
 	"fmt"
 
 	"github.com/sarchlab/akita/v5/messaging"
@@ -46,6 +47,9 @@ type wkWorld struct {
 	hist []wkRec
 	runs int
 	mid  uint64
+
+	restarts int
+	inProc   bool
 }
 
 type wkMsg struct {
@@ -74,6 +78,23 @@ func (w *wkWorld) do(op wakeOp) {
 	case "free":
 		w.rec("notif", now)
 		w.comp.NotifyPortFree(w.port)
+	case "restart":
+		if w.inProc {
+			return // the component lock is held while its processor runs
+		}
+
+		// checkpoint the component and load it back (a restart that keeps the
+		// engine queue): the wakeup guard must survive unchanged
+		var buf bytes.Buffer
+		if err := w.comp.SaveCheckpoint(&buf); err != nil {
+			panic(fmt.Sprintf("SaveCheckpoint: %v", err))
+		}
+
+		if err := w.comp.LoadCheckpoint(&buf); err != nil {
+			panic(fmt.Sprintf("LoadCheckpoint: %v", err))
+		}
+
+		w.restarts++
 	case "deliver":
 		if w.port.CanDeliver() {
 			empty := w.port.NumIncoming() == 0
@@ -95,11 +116,15 @@ func (p wkProc) Process(_ *modeling.EventDrivenComponent[wkSpec, wkState, modeli
 	for w.port.RetrieveIncoming() != nil {
 	}
 
+	w.inProc = true
+
 	for _, op := range w.c.Ops {
 		if op.InProc == w.runs {
 			w.do(op)
 		}
 	}
+
+	w.inProc = false
 
 	return true
 }
@@ -133,7 +158,7 @@ func genWake(r *kit.Rand, tier kit.Tier) wakeCase {
 	span := uint64(r.Range(1, 12))
 
 	for i := 0; i < n; i++ {
-		op := wakeOp{Kind: []string{"at", "now", "recv", "free", "deliver"}[r.Weighted(8, 2, 2, 2, 2)]}
+		op := wakeOp{Kind: []string{"at", "now", "recv", "free", "deliver", "restart"}[r.Weighted(8, 2, 2, 2, 2, 2)]}
 		op.Delta = r.PickU64(0, 0, 1, 2, 3, 5, 8) * lattice
 
 		if r.Chance(1, 3) {
@@ -251,6 +276,7 @@ func execWake(c wakeCase, _ *kit.Env) kit.Outcome {
 	out.Probe("request-later-than-pending", later)
 	out.Probe("request-equal-to-pending", equal)
 	out.Probe("notifications", notifs)
+	out.Fault("restart(component-checkpoint-in-place)", w.restarts)
 	out.Shape = fmtHist(w.hist)
 	out.NonTrivial = earlier > 0 || later > 0
 	out.Sample = map[string]any{"ops": len(c.Ops), "history": fmtHist(w.hist[:min(12, len(w.hist))])}
@@ -278,13 +304,13 @@ func init() {
 	kit.Register(kit.Spec[wakeCase]{
 		ID:    "C13",
 		Level: "exploration",
-		Rule: "a real modeling.EventDrivenComponent on the real serial engine; scripted ScheduleWakeAt/ScheduleWakeNow requests (earlier, later, equal, repeated; from driver events of both classes and from inside processor runs), NotifyRecv/NotifyPortFree calls and real port deliveries; " +
+		Rule: "a real modeling.EventDrivenComponent on the real serial engine; scripted ScheduleWakeAt/ScheduleWakeNow requests (earlier, later, equal, repeated; from driver events of both classes and from inside processor runs), NotifyRecv/NotifyPortFree calls, real port deliveries and in-place component checkpoint save/load (also while idle); " +
 			"oracle over the recorded history: every request for time t issued at history position s is followed by a processor run at a time <= t, every notification at time r by a run at time r; " +
 			"distinct = hash of the history; non-trivial = a request arrived while an earlier or a later wakeup was pending",
 		Assumptions: []string{"requests are never for the past, as the statement requires"},
 		Real:        []string{"modeling.EventDrivenComponent", "timing.SerialEngine", "messaging.Port"},
 		Stubs:       []string{"processor (harness script)", "driver events", "connection stub"},
-		FaultKinds:  []string{},
+		FaultKinds:  []string{"restart(component-checkpoint-in-place)"},
 		Quick:       kit.Budget{Runs: 40000, WallS: 60},
 		Thorough:    kit.Budget{Runs: 3000000, WallS: 600},
 		Gen:         genWake,
